@@ -49,6 +49,10 @@ func c08LoopBody(t *testing.T, s *sim.Scn, o *sim.Outcome) {
 		return
 	}
 	w.DA.AutoAdvance = true
+	// a DA layer that takes its time to answer (honouring the caller's deadline): seconds, far below the minute a
+	// submission attempt is given
+	lat := time.Duration(s.Cfg["dalat"]) * time.Millisecond
+	w.DA.Latency = lat
 	ctx, cancel := context.WithCancel(context.Background())
 	errCh := make(chan error, 4)
 	var wg sync.WaitGroup
@@ -88,7 +92,7 @@ func c08LoopBody(t *testing.T, s *sim.Scn, o *sim.Outcome) {
 	o.Count("loops:blocks-before-recovery", int(hOut))
 	// phase 2: the DA layer accepts again; the chain is idle
 	w.DA.Outage = false
-	settle := 35*dat + 2*idle // the submission loops finish their retry round (30 attempts) and flush the backlog
+	settle := 35*(dat+lat) + 2*idle // the submission loops finish their retry round (30 attempts) and flush the backlog
 	time.Sleep(settle)
 	h1 := n.Height()
 	// the sustainable rate: one block per block/idle interval, throttled to `limit` blocks per DA block time
@@ -98,7 +102,7 @@ func c08LoopBody(t *testing.T, s *sim.Scn, o *sim.Outcome) {
 		per = bt
 	}
 	unit := per
-	if thr := dat / time.Duration(limit); thr > unit {
+	if thr := (dat + 2*lat) / time.Duration(limit); thr > unit {
 		unit = thr
 	}
 	window := 10 * unit
@@ -255,7 +259,7 @@ func c08Body(t *testing.T, s *sim.Scn, o *sim.Outcome) {
 
 func c08LoopGen(r *rand.Rand) *sim.Scn {
 	return &sim.Scn{Cfg: map[string]int64{"loops": 1, "limit": 1 + r.Int64N(6), "lazy": []int64{1, 1, 0}[r.IntN(3)], "bt": []int64{100, 250, 1000}[r.IntN(3)],
-		"idlex": 2 + r.Int64N(6), "dat": []int64{200, 1000, 3000}[r.IntN(3)], "outage": []int64{0, 2000, 15000, 60000, 200000}[r.IntN(5)], "txevery": []int64{0, 0, 1, 5}[r.IntN(4)], "okind": r.Int64N(8)}}
+		"idlex": 2 + r.Int64N(6), "dat": []int64{200, 1000, 3000}[r.IntN(3)], "outage": []int64{0, 2000, 15000, 60000, 200000}[r.IntN(5)], "txevery": []int64{0, 0, 1, 5}[r.IntN(4)], "okind": r.Int64N(8), "dalat": []int64{0, 0, 500, 4000, 9000}[r.IntN(5)]}}
 }
 
 func c08Gen(r *rand.Rand, tier string) *sim.Scn {
